@@ -448,6 +448,15 @@ func (w *World) resolveCanary(k types.NamespacedName, how string, round int) {
 			})
 		}
 	case "wait":
+		// a canary that cannot even start (fewer valid nodes than replicas: the reconcile reports an error, C15)
+		// does not get anywhere by waiting: after a while the user validates the new version instead
+		if e.Status.Canary == nil && round > 15 {
+			if e.Annotations[oracle.AnnCanaryValid] != crs {
+				w.C.Tracef("the canary has not started after %d rounds: the user validates %s", round, crs)
+				_ = w.C.SetEDSAnnotation(k.Namespace, k.Name, oracle.AnnCanaryValid, crs)
+			}
+			return
+		}
 		// auto mode: the duration and the no-restart window elapse; an auto-paused canary needs the user (unpause)
 		if round%5 == 1 {
 			w.C.Advance(e.Spec.Strategy.Canary.Duration.Duration + 6*time.Minute)
